@@ -199,18 +199,10 @@ def deep_subterms(ctx: Ctx, f: Func, t: Term, max_depth: int = 4):
             for h in ctx.cg.resolve_fn(x[1], g):
                 if h.name not in ("__init__", "__post_init__") and not isinstance(h.node, ast.Lambda):
                     visit(h, ctx.X.return_term(h), depth + 1)
-        for y in x[1:]:
-            if isinstance(y, tuple):
-                if y and isinstance(y[0], str):
-                    visit(g, y, depth)
-                else:
-                    for z in y:
-                        if isinstance(z, tuple) and z and isinstance(z[0], str):
-                            visit(g, z, depth)
-                        elif isinstance(z, tuple):
-                            for w in z:
-                                if isinstance(w, tuple) and w and isinstance(w[0], str):
-                                    visit(g, w, depth)
+        from .terms import children
+
+        for y in children(x):
+            visit(g, y, depth)
 
     visit(f, t, 0)
     return out
